@@ -385,7 +385,11 @@ theorem client_flags_iff_verified (d : Def) (now seed ts ctr : Nat) (c c' : Stor
     (h : c.add now vp seed ts (ctr + 1) = (c', .ok row)) :
     (clientLoop d now seed ts c ctr [vp]).1.validated =
       if verify d c' now .client vp = .ok () then row.pk :: c'.validated else c'.validated := by
-  simp only [clientLoop, hs, hi, hk, h]
+  have hj : vp.jwt = true := by
+    cases hjj : vp.jwt with
+    | true => rfl
+    | false => simp [Store.add, hs, hi, hjj] at h
+  simp only [clientLoop, hj, hs, hi, hk, h, Bool.true_eq_false, ↓reduceIte]
   cases hv : verify d c' now .client vp with
   | ok u => simp [Store.setValidated]
   | err e => simp
